@@ -12,6 +12,14 @@ CHECKS = {
   "note": "Trusts: Expected(script) as the reading of the property (400/408 checked for status+close only); the harness reference HTTP response parser; loopback timing assumptions (3 s silence = hang). Open deviations CrlfAfterBody and ReadAheadLost are attributed only when Dev={d} explains the log exactly.",
   "ref": "DESIGN.md section 5 C01",
  },
+ "C09": {
+  "bins": ["proxy"], "specs": ["proxy"],
+  "level": "model_checking",
+  "technique": "TLA+ model of upstream x proxy x discrete clock (Proxy.tla) and of the load balancer under concurrent selectors (LoadBalancer.tla) checked by TLC incl. liveness; TLC-generated upstream behaviours replayed byte-exactly by a scripted loopback upstream against proxy_request and proxy_handler; byte-cut observations and balancer logs trace-validated by TLC",
+  "text": "TLC explores the upstream (refuse, blackhole, silent, close, valid response in Content-Length/chunked/close-delimited framing cut after every segment then close or stall, garbage, malformed header/length/chunk, trickle) against the proxy steps and a clock, proving Inv_Faithful, Inv_Forwarded, Inv_NoPanic, Inv_Timely and Live_Responds with the timer as the only progress guarantee, for all registered non-1xx status codes x 3 framings (thorough), refuting 13 deviations; the balancer is explored for up to 4 targets x 4 threads x 3 calls. Every TLC behaviour is played against the real proxy functions, every seed response is additionally cut at every byte offset, and all observations plus the selection logs of 1..8 real threads are validated by Trace_Proxy / Trace_LoadBalancer.",
+  "note": "Trusts: Acceptable/Forward in ProxyMsg.tla as the reading of the property; 'within the timeout' judged only as returned within timeout + 1.5 s with escalating waits, never as too fast; open deviations CloseDelimitedLost and UnmodelledStatusIs502 are attributed only when Dev={d} predicts the observation exactly; the random balancer's distribution is not decided (membership only).",
+  "ref": "DESIGN.md section 5 C09",
+ },
  "C11": {
   "bins": ["wsendpoint"], "specs": ["wsendpoint"],
   "level": "model_checking",
@@ -35,6 +43,14 @@ CHECKS = {
   "text": "TLC explores the decision-point state machine (connection condition, file/directory/proxy/redirect handler checks, cache, two concurrent connections) against Decide(mode, list, peer, xff, route) with invariants, action and liveness properties, sensitivity configs for 10 deviations and 4 reachability witnesses; every TLC-enumerated row (mode x list x peer x X-Forwarded-For shape x route type x cache state) is sent to the real server binary built from the working tree on 127.0.0.1, ::1 and dual-stack ::, and random keep-alive sessions are validated by Trace_Blacklist.",
   "note": "Trusts: Decide as the reading of the property (only GET to routed targets; a listed intermediate X-Forwarded-For entry may be 403 or served); Linux loopback source-address binding; a server hang is a tool error, not a violation.",
   "ref": "DESIGN.md section 5 C19",
+ },
+ "C04": {
+  "bins": ["routing"], "tokio_bins": ["routing"], "specs": ["routing"],
+  "level": "model_checking",
+  "technique": "TLA+ model of the dispatcher (one action per find step of get_handler / call_websocket_handler) checked by TLC against the denotational Route/WsRoute; TLC-generated (app, request, expected handler) vectors replayed on real Apps over loopback on both runtimes; random full-width apps trace-validated by TLC",
+  "text": "TLC proves AlgoCorrect (the stepwise dispatcher ends with the property's Route/WsRoute result), termination and the independence facts (removing a non-chosen route or another host, appending routes/hosts, HTTP vs WebSocket route kinds) over apps with <=2 hosts x <=3 routes from a pattern catalogue x Host values x paths x query forms, refuting nine deviations (last route, last host, next host on miss, no default after host match, match with query, host equality, port ignored, WebSocket using HTTP routes, pre-repair matcher); every vector is sent as real requests (GET keep-alive, POST, HTTP/1.0, OPTIONS, WebSocket upgrade) to a real App built through the public registration API, and random apps of the property's full width (0..4 hosts x 0..6 routes) are validated by Trace_Routing.",
+  "note": "Trusts: Route/WsRoute in Routing.tla as the reading of the property (host matched but no route falls through to the default app; Host with port matched literally; a WebSocket miss is no bytes or any non-101 answer); Match copied from spec/glob (the check refuses to run if the copies differ).",
+  "ref": "DESIGN.md section 5 C04",
  },
  "C05": {
   "bins": ["glob"], "specs": ["glob"],
